@@ -67,6 +67,14 @@ Definition run_gen (c : cfg) (h : Z -> Z) : hset BS -> list op -> hset BS * list
        (next_fn (c_probing c)) (c_logStart c) (calc_capacity (c_pol c) (c_cap c)) (shift_fn (c_pol c) (c_cap c)) max_log.
 (* what the correspondence stage runs: the same with one of the test hash distributions *)
 Definition step_cfg (c : cfg) : hset BS -> op -> hset BS * out := step_gen c (hash_fn (c_hash c)).
+Definition wstep_gen (c : cfg) (h : Z -> Z) : world BS -> wop -> world BS * out :=
+  wstep BS bs0 (decode_fn (c_bound c)) (upd_fn (c_bound c)) h (c_cap c) (c_unlimited c) (c_wf0 c) (c_wfThr c) start_fn
+       (next_fn (c_probing c)) (c_logStart c) (calc_capacity (c_pol c) (c_cap c)) (shift_fn (c_pol c) (c_cap c)) max_log.
+Definition wrun_gen (c : cfg) (h : Z -> Z) : world BS -> list wop -> world BS * list out :=
+  wrun BS bs0 (decode_fn (c_bound c)) (upd_fn (c_bound c)) h (c_cap c) (c_unlimited c) (c_wf0 c) (c_wfThr c) start_fn
+       (next_fn (c_probing c)) (c_logStart c) (calc_capacity (c_pol c) (c_cap c)) (shift_fn (c_pol c) (c_cap c)) max_log.
+Definition wstep_cfg (c : cfg) : world BS -> wop -> world BS * out := wstep_gen c (hash_fn (c_hash c)).
+Definition winit_cfg : world BS := winit BS.
 Definition shape_cfg (c : cfg) : hset BS -> list (Z * list (list Z * bool * Z)) := shape BS (decode_fn (c_bound c)).
 Definition init_cfg : hset BS := hinit BS.
 Definition traverse_cfg : hset BS -> list item := traverse BS.
